@@ -86,12 +86,18 @@ func traceIP(root *ssa.Function, v ssa.Value) string {
 
 var traceRoot *ssa.Function
 
+// traceOpaque: helpers whose calls a rule wants to see by name rather than looked through.
+var traceOpaque = map[string]bool{}
+
 // traceBind: while a helper's returned value is being read, its parameters stand for the arguments of that call.
 var traceBind = map[*ssa.Parameter]ssa.Value{}
 
 // helperResult: the single non-zero value an unexported same-package helper returns at result idx.
 func helperResult(call *ssa.Call, idx int) ssa.Value {
 	h := call.Call.StaticCallee()
+	if h != nil && traceOpaque[h.Name()] {
+		return nil
+	}
 	if traceRoot == nil || h == nil || fnPkg(h) == nil || fnPkg(h) != fnPkg(traceRoot) || len(h.Blocks) == 0 || h.Parent() != nil || h.Object() == nil || h.Object().Exported() {
 		return nil
 	}
